@@ -631,6 +631,7 @@ impl Monitor for C01 {
             ("single", tier.pick(200_000, 2_500_000)),
             ("typed", tier.pick(300_000, 3_000_000)),
             ("noise", tier.pick(60_000, 600_000)),
+            ("corpus", tier.pick(60_000, 800_000)),
         ]
     }
 
@@ -640,6 +641,16 @@ impl Monitor for C01 {
             exhaust::set_render(idx % 8 == 0);
         }
         match engine {
+            "corpus" => match gen::corpus::case(idx, rng) {
+                Some(case) => {
+                    rep.count("corpus_cases");
+                    self.whole(rep, case.start, &case.bytes);
+                    if case.start == Start::Ip {
+                        self.ip_level(rep, &case.bytes);
+                    }
+                }
+                None => rep.selfcheck_fail("corpus file missing".into()),
+            },
             "hostile" => {
                 let case = gen::gen_case(rng, &GenOpts::hostile());
                 self.whole(rep, case.start, &case.bytes);
